@@ -10,41 +10,6 @@ open Panoptica.C10
 
 /-! ### strictly sorted lists -/
 
-/-- two strictly increasing lists with the same members are equal -/
-theorem sorted_ext : ∀ (l₁ l₂ : List Nat), l₁.Pairwise (· < ·) → l₂.Pairwise (· < ·) →
-    (∀ x, x ∈ l₁ ↔ x ∈ l₂) → l₁ = l₂
-  | [], [], _, _, _ => rfl
-  | [], b :: bs, _, _, h => absurd ((h b).2 (List.mem_cons_self ..)) (by simp)
-  | a :: as, [], _, _, h => absurd ((h a).1 (List.mem_cons_self ..)) (by simp)
-  | a :: as, b :: bs, h₁, h₂, h => by
-    have ha := List.pairwise_cons.1 h₁
-    have hb := List.pairwise_cons.1 h₂
-    have hab : a = b := by
-      have h1 := (h a).1 (List.mem_cons_self ..)
-      have h2 := (h b).2 (List.mem_cons_self ..)
-      rcases List.mem_cons.1 h1 with e | e
-      · exact e
-      · rcases List.mem_cons.1 h2 with e' | e'
-        · exact e'.symm
-        · have := hb.1 a e
-          have := ha.1 b e'
-          omega
-    subst hab
-    congr 1
-    apply sorted_ext as bs ha.2 hb.2
-    intro x
-    constructor
-    · intro hx
-      rcases List.mem_cons.1 ((h x).1 (List.mem_cons_of_mem _ hx)) with e | e
-      · have := ha.1 x hx
-        omega
-      · exact e
-    · intro hx
-      rcases List.mem_cons.1 ((h x).2 (List.mem_cons_of_mem _ hx)) with e | e
-      · have := hb.1 x hx
-        omega
-      · exact e
-
 /-- pigeonhole: a strictly increasing list of naturals in `[lo, B)` has at most `B - lo` elements -/
 theorem sorted_length_le (B : Nat) : ∀ (l : List Nat) (lo : Nat), l.Pairwise (· < ·) →
     (∀ x ∈ l, lo ≤ x ∧ x < B) → lo ≤ B → l.length + lo ≤ B
